@@ -87,7 +87,7 @@ def model_program(rng):
     return "\n".join(lines), depth, route
 
 
-ROUTES = ["direct", "list.map", "list.each", "list.filter", "sorted", "try", "spawn", "go-chan", "vmcall"]
+ROUTES = ["direct", "list.map", "list.each", "list.filter", "sorted", "try", "spawn", "go-chan", "vmcall", "after-error", "after-error"]
 
 
 def route_programs(rng):
@@ -121,6 +121,28 @@ def route_programs(rng):
     elif route == "go-chan":
         routed = pre + ["r := []", "c := chan(1)"] + ["go func() { x := inc(); c <- x }()\nv%d := <-c\nr.append(v%d)" % (k, k) for k in range(n)] + \
                  ["r.append(get())", "r"]
+    elif route == "after-error":
+        # an earlier activation that created closures and was then left by an error (caught by try) must leave nothing
+        # behind: the same program after such a failure - at the same call depth, one deeper, or from a frame with more
+        # than 8 locals - binds exactly as without it.  The failing function also fails between creation and use.
+        wide = rng.chance(1, 3)
+        locs = "".join("w%d := %d; " % (i, i) for i in range(9)) if wide else ""
+        boom = ["func boom(n=5) { %sz := n; g := func() { z = z + 1; return z }; h := func() { return z }; g(); error(\"boom\"); return [g, h] }" % locs]
+        k = rng.below(3)
+        if k == 0:
+            fail = ["try(func() { return boom(5) }, 0)" if rng.chance(1, 4) else "try(boom, 0)"]
+        elif k == 1:
+            boom = boom + ["func outer() { return boom(7) }"]
+            fail = ["try(outer, 0)"]
+        else:
+            fail = ["try(boom, 0)", "try(boom, 0)"]
+        where = rng.below(3)
+        if where == 0:
+            routed = boom + fail + direct
+        elif where == 1:
+            routed = boom + pre[:1] + fail + pre[1:] + direct[len(pre):]
+        else:
+            routed = boom + pre + fail + direct[len(pre):len(pre) + 2] + fail + direct[len(pre) + 2:]
     else:
         routed = pre + ["nil"]
     return "\n".join(direct), "\n".join(routed), route, depth, n
